@@ -153,6 +153,9 @@ def feature_libs():
         if l.startswith("/version"):
             continue
         if _uses_old(lib):
+            # statements of LEF <= 5.4: at both versions below the gate, and in another spelling of the version
+            out.append((l + "@5.3", dict(lib, version=[False, "53", 1])))
+            out.append((l + "@5.40", dict(lib, version=[False, "540", 2])))
             lib = dict(lib, version=[False, "54", 1])
         out.append((l, lib))
     return out
